@@ -3,7 +3,7 @@
    supernormals; the all-ones exponent+fraction pattern is inf (ubit clear) or NaN (ubit set).
    ubit set = "the open interval between this exact value and the next one away from zero". *)
 From Coq Require Import ZArith QArith Qabs Lia Bool List.
-From UV Require Import RoundSpec RoundNE PositMono2 PositVal CfloatSpec Num Ops Verdict PositFast CfloatModel.
+From UV Require Import RoundSpec RoundNE PositMono2 PositVal CfloatSpec Num Ops Verdict PositFast CfloatModel NativeJudge.
 Import ListNotations.
 Local Open Scope Z_scope.
 
@@ -57,16 +57,8 @@ Definition judge_areal (cfg : list Z) (op : Z) (args res : list Z) : verdict :=
     end in
   if Z.eqb op OP_from_f64 then from (f64_decode a) else
   if Z.eqb op OP_from_f32 then from (f32_decode a) else
-  if Z.eqb op OP_to_f64 then
-    match a_decode_lower n es a with
-    | NaN => mkV (match f64_decode r with NaN => true | _ => false end) [f64_encode NaN] true
-    | x => exact [f64_encode x] true
-    end else
-  if Z.eqb op OP_to_f32 then
-    match a_decode_lower n es a with
-    | NaN => mkV (match f32_decode r with NaN => true | _ => false end) [f32_encode NaN] true
-    | x => exact [f32_encode x] true
-    end else
+  if Z.eqb op OP_to_f64 then judge_to_f64 (a_decode_lower n es a) res else
+  if Z.eqb op OP_to_f32 then judge_to_f32 (a_decode_lower n es a) res else
   if Z.eqb op OP_to_f64_rt then
     (* lower bound -> double -> areal gives the exact encoding (ubit cleared) *)
     match a_decode_lower n es a with
